@@ -110,10 +110,12 @@ func (o *Obligation) SMTBody() string {
 		fmt.Fprintf(&b, "(assert %s)\n", h.SMT())
 	}
 	for _, h := range o.Hints {
+		// hint / hints are otherwise unconstrained predicates: asserting them on a term is harmless and
+		// keeps the term in the E-graph (seeds quantifier instantiation)
 		if h.Sort == SSeq {
-			fmt.Fprintf(&b, "(assert (or (hints %s) true))\n", h.SMT())
+			fmt.Fprintf(&b, "(assert (hints %s))\n", h.SMT())
 		} else if h.Sort == SInt {
-			fmt.Fprintf(&b, "(assert (or (hint %s) true))\n", h.SMT())
+			fmt.Fprintf(&b, "(assert (hint %s))\n", h.SMT())
 		}
 	}
 	fmt.Fprintf(&b, "(assert (not %s))\n", o.Goal.SMT())
